@@ -134,7 +134,35 @@ static void allRun(unsigned seed, int combo, FILE* out) {
 	_exit(0);
 }
 
+// scenario "bad" (combo 16, 17): the invocation cannot be started (unknown invoker type / child document that is
+// not well-formed): the monitor's beforeInvoking still has to be closed by afterInvoking (C13), the session goes on
+static void badRun(unsigned seed, int combo, FILE* out) {
+	setenv("USCXML_NOCACHE_FILES", "YES", 1);
+	FILE* devnull = fopen("/dev/null", "w");
+	if (devnull) { dup2(fileno(devnull), 1); dup2(fileno(devnull), 2); }
+	std::string inv = (combo % 2) ? "<invoke type=\"http://no.such/invoker\" id=\"K1\"/>"
+	                              : "<invoke type=\"scxml\" id=\"K1\" src=\"file:///verif/no-such-document.scxml\"/>";
+	std::string doc = "<scxml xmlns=\"http://www.w3.org/2005/07/scxml\" version=\"1.0\" datamodel=\"null\" name=\"parent3\">"
+	                  "<state id=\"q1\">" + inv + "<transition event=\"quit\" target=\"fin\"/><transition event=\"*\"/></state><final id=\"fin\"/></scxml>";
+	Interpreter interp = Interpreter::fromXML(doc, "file:///verif/mti3.scxml");
+	Mon mon;
+	interp.addMonitor(&mon);
+	InterpreterState st = USCXML_UNDEF;
+	for (int i = 0; i < 40 && st != USCXML_FINISHED; i++) {
+		st = interp.step(5);
+		if (i == 12) interp.receive(Event("quit", Event::EXTERNAL));
+	}
+	{
+		std::lock_guard<std::mutex> l(LOGM);
+		LOG.push_back(std::string("{\"k\":\"ev\",\"r\":\"D\",\"cb\":\"finished\",\"a\":\"") + (st == USCXML_FINISHED ? "yes" : "no") + "\"}");
+		for (auto& l2 : LOG) fprintf(out, "%s\n", l2.c_str());
+		fflush(out);
+	}
+	_exit(0);
+}
+
 static void oneRun(unsigned seed, int combo, FILE* out) {
+	if (combo >= 16) badRun(seed, combo, out);
 	if (combo >= 12) allRun(seed, combo, out);
 	setenv("USCXML_NOCACHE_FILES", "YES", 1);
 	FILE* devnull = fopen("/dev/null", "w");
@@ -194,9 +222,10 @@ int main(int argc, char** argv) {
 	int runs = atoi(argv[2]);
 	unsigned seed = (unsigned)atoi(argv[3]);
 	for (int r = 1; r <= runs; r++) {
-		int combo = (r - 1) % 16;
+		int combo = (r - 1) % 18;
+		if (argc > 4 && strcmp(argv[4], "bad") == 0) combo = 16 + (r - 1) % 2;
 		fprintf(out, "{\"k\":\"reset\",\"run\":%d,\"scenario\":\"%s\",\"child\":%d,\"autoforward\":%s,\"finalize\":%s}\n", r,
-		        combo >= 12 ? "all" : "one", combo >= 12 ? ((combo % 2) ? 1 : 2) : combo % 3,
+		        combo >= 16 ? "bad" : combo >= 12 ? "all" : "one", combo >= 12 ? ((combo % 2) ? 1 : 2) : combo % 3,
 		        combo < 12 && (combo / 3) % 2 ? "true" : "false", combo < 12 && (combo / 6) % 2 ? "true" : "false");
 		fflush(out);
 		int pfd[2];
